@@ -8,7 +8,7 @@
     [fixed_code c]: the configuration is the code after commit 80a110a (the
     guard exists) and ThreadAllocInfo::current() is Some on every thread. *)
 From Coq Require Import List Arith Bool NArith.
-From DivanV Require Import Generated.Consts2 Model.Round Proofs.RoundBase Proofs.RoundInv Proofs.RoundTerm Proofs.RoundAlloc Proofs.RoundEx Proofs.RoundMain Proofs.RoundMon.
+From DivanV Require Import Generated.Consts2 Model.Round Proofs.RoundBase Proofs.RoundInv Proofs.RoundTerm Proofs.RoundAlloc Proofs.RoundEx Proofs.RoundMain Proofs.RoundMon Proofs.RoundRec.
 Import ListNotations.
 
 (** The invariant evaluated by the exhaustive explorer ([inv_b], DESIGN.md
@@ -130,6 +130,23 @@ Theorem C08_own_allocs_only_own : forall c c' i r,
   own_allocs c i r = own_allocs c' i r.
 Proof. exact own_allocs_only_own. Qed.
 Print Assumptions C08_own_allocs_only_own.
+
+(** The caller's bookkeeping ([records]: alloc_info_by_sample after a run in
+    which nothing panics): an entry exists exactly for every (round r, thread t)
+    whose own tally is not empty, under index r*T + t, and holds that tally. *)
+Theorem C08_sample_index : forall c k s,
+  In (k, s) (records c) <->
+  exists r t, r < nrounds c /\ t < nthreads c /\ k = r * nthreads c + t /\
+              s = own_allocs c t r /\ s <> [].
+Proof. exact sample_index. Qed.
+Print Assumptions C08_sample_index.
+
+(** The sample stored under index r*T + t is thread t's own, never another thread's. *)
+Theorem C08_sample_index_own : forall c r t s,
+  t < nthreads c -> In (r * nthreads c + t, s) (records c) ->
+  r < nrounds c /\ s = own_allocs c t r /\ s <> [].
+Proof. exact sample_index_own. Qed.
+Print Assumptions C08_sample_index_own.
 
 (** The boolean specification evaluated on the implementation's observed global
     logs ([log_sb], a monitor independent of [step]) accepts the log of every
